@@ -135,9 +135,19 @@ fn draw_fresh(rng: &mut Rng, x: &Mat, kind: &str, is32: bool) -> Mat {
     xf
 }
 
-fn draw_label_values(rng: &mut Rng, k: usize) -> Vec<f64> {
+fn draw_label_values(rng: &mut Rng, k: usize, is32: bool) -> Vec<f64> {
     if rng.bool(0.35) {
         (0..k).map(|i| i as f64).collect()
+    } else if k >= 2 && rng.bool(0.15) {
+        // (values that are not exactly representable in f32 are rounded to the width under test by the caller's to_dense / tv)
+        let v = scverif::gen::tricky_labels(rng, k).0;
+        let w: Vec<f64> = if is32 { v.iter().map(|x| *x as f32 as f64).collect() } else { v };
+        let distinct = (0..k).all(|i| (0..i).all(|j| w[i] != w[j]));
+        if distinct {
+            w
+        } else {
+            (0..k).map(|i| i as f64 * 2.0 - 1.0).collect()
+        }
     } else {
         // all exactly representable in f32
         let pool = [-7.5, -3.0, -1.0, 0.0, 0.5, 1.0, 2.0, 5.0, 10.0, 100.0, 1048576.0];
@@ -479,7 +489,7 @@ fn clf_t<T: Num>(c: &mut Case, grown: bool) {
     let mut x = draw_x(&mut c.rng, n, p, xkind, is32);
     let mods = if grown { Vec::new() } else { modify_x(&mut c.rng, &mut x) };
     let xf = draw_fresh(&mut c.rng, &x, xkind, is32);
-    let labels = draw_label_values(&mut c.rng, k);
+    let labels = draw_label_values(&mut c.rng, k, is32);
     let (cls, ykind) = draw_classes(&mut c.rng, &x, k);
     let y: Vec<f64> = cls.iter().map(|ci| labels[*ci]).collect();
     let prm = draw_params(&mut c.rng, p, grown, true);
